@@ -391,3 +391,11 @@ RULES = [
     ("C04.R10", "T8/T3", "every executed request is recorded as the last valid request (shared with C05.R6): the frame-id refresh relies on it", r10),
     ("C04.R11", "T3", "a failed control echo aborts the header through WriteError in every per-object loop", r11),
 ]
+
+
+def r12(ctx):
+    """'the next sequence number': what match_operate compares with is Sequence::next() - the 4-bit successor (shared code)."""
+    app_sequence_wrap(ctx)
+
+
+RULES.append(("C04.R12", "T11/T2", "the application sequence number is a 4-bit counter wrapping 15 -> 0 (next / increment / new)", r12))
